@@ -345,6 +345,7 @@ func runHistory(run *report.Run, w *world.World, hs histSpec, scratch string, id
 	var ymu sync.Mutex
 	hookOrder := []string{}
 	var swapFault atomic.Bool
+	var inSwap atomic.Bool // between 'swap locked' and 'after swap': the window that matters most
 	// the live store directories (everything in work_dir now, after the initial load); the staged
 	// database of a refresh is whatever directory appears next to them
 	liveDirs := map[string]bool{}
@@ -364,6 +365,12 @@ func runHistory(run *report.Run, w *world.World, hs histSpec, scratch string, id
 			run.Count("swap_faults_fired", 1)
 		}
 		if name == "repo.swap.locked" {
+			inSwap.Store(true)
+		}
+		if name == "repo.update.after_swap" {
+			inSwap.Store(false)
+		}
+		if name == "repo.swap.locked" {
 			swapMu.Lock()
 			swapTimes = append(swapTimes, now())
 			swapMu.Unlock()
@@ -377,6 +384,9 @@ func runHistory(run *report.Run, w *world.World, hs histSpec, scratch string, id
 		}
 		ymu.Unlock()
 		switch {
+		case name == "leveldb.update.old_closed" || name == "leveldb.update.old_moved_aside" || name == "map.update.mid":
+			// the window in which the live store is closed / half replaced: readers get time to try
+			time.Sleep(time.Duration(600+r*150) * time.Microsecond)
 		case r < 4:
 			runtime.Gosched()
 		case r < 7:
@@ -476,6 +486,7 @@ func runHistory(run *report.Run, w *world.World, hs histSpec, scratch string, id
 			}
 		}
 		t1 := now()
+		inSwap.Store(false)
 		time.Sleep(400 * time.Microsecond) // readers keep going right after the refresh
 		refreshing.Store(false)
 		rec.add(porcupine.Operation{ClientId: hs.Readers, Input: opIn{Kind: "refresh", Target: target, Fault: f}, Call: t0, Output: opOut{Result: res}, Return: t1})
